@@ -696,11 +696,14 @@ static int file_post(struct snapraid_state* state, int fix, unsigned i, struct s
 			/* if the file is closed or different than the one expected, reopen it */
 			/* a different open file could happen when filtering for bad blocks */
 			if (handle[j].file != file) {
+				/* keep the name for the error message, as a failed close clears the handle */
+				const char* close_sub = handle[j].file ? handle[j].file->sub : file->sub;
+
 				/* close a potential different file */
 				ret = handle_close(&handle[j]);
 				if (ret != 0) {
 					/* LCOV_EXCL_START */
-					log_tag("error:%u:%s:%s: Close error. %s\n", i, disk->name, esc_tag(handle[j].file->sub, esc_buffer), strerror(errno));
+					log_tag("error:%u:%s:%s: Close error. %s\n", i, disk->name, esc_tag(close_sub, esc_buffer), strerror(errno));
 					log_fatal("DANGER! Unexpected close error in a data disk.\n");
 					return -1;
 					/* LCOV_EXCL_STOP */
